@@ -15,8 +15,36 @@ ASSUME = [
 ]
 
 
-def build(cp, names, ctx):
-    comp, subdefs = corpus_tv.compile_insns(cp, names)
+def fingerprint(res_by_fmt):
+    """fingerprint of everything the compiler returned for one instruction (both layouts): emitted texts without comment
+    lines and with the history dependent temporary numbers renamed in order of appearance, attribute lists, flags"""
+    import hashlib
+    import re
+    parts = []
+    for f in tv.FORMATS:
+        r = res_by_fmt[f]
+        if not r.get("ok"):
+            parts.append("REJ:%s/%s" % (r.get("exc"), r.get("inner")))
+            continue
+        names = {}
+
+        def ren(m):
+            return names.setdefault(m.group(0), "h_tmp#%d" % len(names))
+        for t in r["rzil"]:
+            t = "\n".join(l for l in t.split("\n") if not l.lstrip().startswith("//"))
+            parts.append(re.sub(r"h_tmp\w*?\d+", ren, t))
+        parts.append(json.dumps([r.get("meta"), r.get("needs_hi"), r.get("needs_pkt")], sort_keys=True))
+    return hashlib.md5("\x00".join(parts).encode()).hexdigest()
+
+
+BASELINE = os.path.join(os.path.dirname(os.path.dirname(os.path.dirname(os.path.abspath(__file__)))), "baseline", "c01_fingerprints.json")
+
+
+def build(cp, names, ctx, pre=None):
+    if pre is not None:
+        comp, subdefs = {n: pre[0][n] for n in names}, pre[1]
+    else:
+        comp, subdefs = corpus_tv.compile_insns(cp, names)
     il_subs, sub_events, sub_errs = corpus_tv.il_subs_table(subdefs)
     cases = []
     srcs = []
@@ -116,7 +144,23 @@ def run(ctx):
         names = sorted(cp.beh)
     else:
         names = cp.sample(150, ctx.seed)
-    cases, srcs, il_subs, meta, info = build(cp, names, ctx)
+    pre = None
+    changed = []
+    if not ctx.replay:
+        # every instruction is compiled on every run; the quick tier validates a stratified sample PLUS every instruction
+        # whose output differs from the fingerprints recorded when the whole corpus was last validated (bin/mkbaseline)
+        allnames = sorted(cp.beh)
+        pre = corpus_tv.compile_insns(cp, allnames)
+        fps = {n: fingerprint(pre[0][n]) for n in allnames}
+        ctx.fingerprints = fps
+        if ctx.tier == "quick":
+            base = json.load(open(BASELINE)) if os.path.exists(BASELINE) else {}
+            changed = [n for n in allnames if base.get("fingerprints", {}).get(n) != fps[n]]
+            extra = changed if len(changed) <= 400 else changed[::max(1, len(changed) // 400)]
+            names = sorted(set(names) | set(extra))
+    cases, srcs, il_subs, meta, info = build(cp, names, ctx, pre)
+    info["compiled"] = len(cp.beh)
+    info["changed_since_baseline"] = len(changed)
     c_subs = {n: {k: v for k, v in s.items() if k != "kind"} for n, s in cp.csubs.items()}
 
     # acceptance: in the dialect => accepted
